@@ -58,9 +58,11 @@ ASSUMPTIONS = [
 EXPECT_PROBES = ("confirmed", "critical", "suspicious", "anergic_silent", "treg_lowered", "treg_saw_critical",
                  "remembered_threat_present", "retrained", "edge_zone", "canary_failed", "flag_present_outside",
                  "flag_or_memory_inside", "self_tolerance_checked", "direct_tcell", "direct_treg", "mem_pruned",
-                 "streak_confirmed")
+                 "streak_confirmed", "answer_one_step_below_table", "recalled_lowered_answer")
 
 LEVELS = [TL.NONE, TL.SUSPICIOUS, TL.CONFIRMED, TL.CRITICAL]
+# what the watcher itself recommends for a threat level (its response table)
+TABLE = {TL.NONE: RA.IGNORE, TL.SUSPICIOUS: RA.MONITOR, TL.CONFIRMED: RA.ISOLATE, TL.CRITICAL: RA.SHUTDOWN}
 STEP = {RA.IGNORE: 0, RA.MONITOR: 1, RA.ISOLATE: 2, RA.SHUTDOWN: 3}
 ACTIONS = [RA.IGNORE, RA.MONITOR, RA.ISOLATE, RA.SHUTDOWN]
 AGENTS = ["a", "b"]
@@ -113,7 +115,8 @@ def _gen_system(rng, tier):
         ops.append(["inspect", 0])
     nseg = rng.randint(2, 6 if tier == "quick" else 10)
     table = [(4, "out_streak"), (2.5, "back"), (2.5, "retrain"), (2.5, "edge"), (1.5, "canary"), (1.5, "flag"),
-             (2, "alarm"), (1, "reset"), (2.5, "treg"), (2, "mem"), (1, "clock"), (1.2, "other"), (1, "drift")]
+             (2, "alarm"), (1, "reset"), (2.5, "treg"), (2, "mem"), (1, "clock"), (1.2, "other"), (1, "drift"),
+             (2.5, "tolerated_repeat"), (1.2, "mutate")]
     for _ in range(nseg):
         seg = weighted(rng, table)
         g = 0 if (base[1] is None or rng.random() < 0.8) else 1
@@ -126,6 +129,33 @@ def _gen_system(rng, tier):
             if rng.random() < 0.35:
                 base[g] = s
                 ops += [["fill", g, *s, window], ["train", g], ["inspect", g]]
+        elif seg == "tolerated_repeat":
+            # a tolerance rule in force, a confirmed threat, and the same out-of-baseline fingerprint inspected again
+            # and again (later answers come from immune memory)
+            how = rng.choice(["recent", "recent", "always", "tolerated"])
+            ops.append(["rule_add", how, rng.choice([2, 2, 3])])
+            if how == "recent":
+                ops.append(["updated", g])
+            elif how == "tolerated":
+                ops.append(["tolerate", g, rng.choice(["output_length", "vocabulary_hash", "response_time", "confidence"])])
+            s = _spec(rng, base[g])
+            cur[g] = s
+            ops.append(["fill", g, *s, window])
+            if rng.random() < 0.6:
+                ops.append(["flag", g] if rng.random() < 0.7 else ["canary", g, False])
+            for _ in range(rng.randint(2, 5)):
+                ops.append(["inspect", g])
+                if rng.random() < 0.15:
+                    ops.append(["clock", rng.choice([10.0, 3601.0])])
+        elif seg == "mutate":
+            what = rng.choice(["reregister", "clear", "thresholds", "thresholds"])
+            if what == "thresholds":
+                ops.append(["tc_thresholds", g, rng.choice([1, 2, 3, 5]), rng.choice([1, 2, 5])])
+            else:
+                ops.append([what, g])
+                if rng.random() < 0.6:
+                    ops.append(["fill", g, *(cur[g] or base[g]), window])
+            ops.append(["inspect", g])
         elif seg == "back":
             cur[g] = base[g]
             ops += [["fill", g, *base[g], window], ["inspect", g]]
@@ -510,6 +540,15 @@ def run_system(plan, k):
         elif name == "clear":
             imm.displays[a].clear()
             k.ev("clear", a)
+        elif name == "reregister":
+            out = call(imm.register_agent, a)      # fresh display and tolerance record; watcher and profile stay
+            k.ev("reregister", [a, out.brief()])
+        elif name == "tc_thresholds":
+            tc = imm.tcells.get(a)
+            if tc is None:
+                continue
+            tc.repeated_anomaly_threshold, tc.anergy_threshold = op[2], op[3]   # public fields, read back by the oracle
+            k.ev("tc_thresholds", [a, op[2], op[3]])
         elif name == "train":
             out = call(imm.train_agent, a)
             k.ev("train", [a, out.brief()])
@@ -614,6 +653,19 @@ def run_system(plan, k):
                 if not quiet:
                     k.violation("self_tolerance", "threat_right_after_training", site,
                                 f"{resp.threat_level.name}/{resp.action.name} on the window just trained on")
+            # system-level answer against the watcher's own recommendation for that threat level, whichever
+            # component produced the answer (T cell, Treg, immune memory): at most one step lower, CRITICAL untouched
+            rec_action = TABLE[resp.threat_level]
+            if resp.action in STEP:
+                if STEP[rec_action] - STEP[resp.action] > 1:
+                    k.violation("treg_step", "lowered_more_than_one_step", site,
+                                f"{resp.threat_level.name}: watcher recommends {rec_action.name}, reported {resp.action.name}")
+                elif STEP[rec_action] - STEP[resp.action] == 1:
+                    k.probe("answer_one_step_below_table")
+                    if site == "memory_recall":
+                        k.probe("recalled_lowered_answer")
+            if resp.threat_level == TL.CRITICAL and resp.action != RA.SHUTDOWN:
+                k.violation("treg_critical", "critical_action_changed", site, f"CRITICAL reported with {resp.action.name}")
             # Treg: only the action may move, by one step, never for CRITICAL
             if e_pair is not None:
                 judge_treg(k, e_pair[0], e_pair[1])
